@@ -126,6 +126,9 @@ def run_case(case, ctx):
         k = int(rng.randint(1, 7))
         pools[c] = ([int(v) for v in rng.permutation(20)[:k]] if intcat else
                     [CATS[j] for j in rng.permutation(len(CATS))[:k]])
+        if intcat and k >= 2 and case["sub"] % 2 == 0:
+            # negative codes next to each other (-1 "unknown", -2 "refused"): distinct values, whatever their hashes are
+            pools[c][:2] = [-1, -2]
     train = draw(nrow + 3, pools, miss=0.1)
     if ncat >= 2 and case["sub"] % 6 == 4 and not intcat:
         # a categorical column with no category at all at fit time (all missing): every value met later is unseen
